@@ -56,7 +56,7 @@ Fam == Family(S)
 
 \* --------------------------------------------------------------------------
 \* configuration spaces
-HonestMode == Mode \in {"C01", "C02", "C03", "C05", "C06", "C11", "C12"}
+HonestMode == Mode \in {"C01", "C02", "C03", "C05", "C06", "C10", "C11", "C12"}
 
 KeySpace(maxdeg) ==
   LET base == {[sup |-> su, hid |-> h, nobounds |-> FALSE, bounds |-> b] :
@@ -164,7 +164,10 @@ OpSpace ==
         \cup (IF MaxPolys >= 2 /\ Mode = "C01"
               THEN {[kind |-> "open", labels |-> <<2, 1>>, pt |-> 2, qs |-> {}, lcs |-> <<>>]} ELSE {})
         \* the algebraically special points -1 (id 5), 0 (id 6), 1 (id 7)
-        \cup (IF Mode \in {"C01", "C02", "C03", "C04"}
+        \* (not for the IPA degree-bound moves: IPA enforces a bound through the factor z^(D-d) of the
+        \*  claimed value, which is 1 resp. 0 at z = 1, -1, 0 for several bounds at once -- the library
+        \*  documents that bound enforcement needs a point sampled independently of the polynomial)
+        \cup (IF Mode \in {"C01", "C02", "C03"} \/ (Mode = "C04" /\ S # "ipa")
               THEN {[kind |-> "open", labels |-> SortInts(L), pt |-> z, qs |-> {}, lcs |-> <<>>] : z \in SpecialPts} ELSE {})
    ELSE {})
   \cup (IF "batch" \in OpKinds
@@ -183,7 +186,11 @@ HonestComm(p) ==
    shifted |-> IF BoundOf(p) # NONE /\ S \in {"marlin", "ipa"} THEN "own" ELSE "none",
    plain |-> "own"]
 
+\* does the polynomial contribute to the opening proof (so that the proof is bound to transcript
+\* and commitment)?  KZG family: non-constant or blinded (a constant has witness 0); IPA: every
+\* non-zero polynomial (its commitment enters the hash chain of the rounds); Hyrax, linear codes: all
 Contributing(p) == AlwaysBlinds(S) \/ LinCode(S) \/ p.cls \notin {"zero", "const"}
+                   \/ (S = "ipa" /\ p.cls # "zero")
                    \/ (p.hid # NONE /\ HonoursHiding(S))
 
 \* linear combinations on the homomorphic path become virtual polynomials / commitments
@@ -241,6 +248,7 @@ HonestStmt(o) ==
    tevals |-> IF o.kind = "lc" /\ LCImpl(S) = "default"
               THEN LET ks == ProverEvalKeys(LcPolyQs(o.lcs, o.qs)) IN [i \in DOMAIN ks |-> [key |-> ks[i], delta |-> 0]]
               ELSE <<>>,
+   vkmut |-> "",         \* C10: which verifier-key element was replaced
    olcs |-> o.lcs,       \* the combinations the prover opened (never changed by the adversary)
    pre |-> <<>>]         \* events the verifier's sponge absorbed beyond the prover's
 
@@ -369,6 +377,30 @@ PlansC06(st) ==
         ELSE {})
   \cup {Plan("honest", "accept", <<>>)}
 
+\* C10: every verifier-visible component replaced by another valid element of its type; the
+\* harness compares the library's decision with an independent implementation of the relation
+VkComponents ==
+  CASE S \in {"marlin", "sonic", "pst13"} -> {"g", "gamma_g", "h", "beta_h", "shift"}
+    [] S = "ipa" -> {"g", "h", "s", "shift"}
+    [] S = "hyrax" -> {"g", "h", "shift"}
+    [] OTHER -> {}
+PlansC10(st) ==
+  {Plan("honest", "ref", <<>>)}
+  \cup {Plan("c:value", "ref", <<ValueMove(key, "plus")>>) : key \in ClaimKeys(st)}
+  \cup {Plan("c:point", "ref", <<[M("point") EXCEPT !.pl = g.pl, !.pt2 = FreshPt]>>) : g \in RangeOf(GroupsOfStmt(st))}
+  \cup {Plan("c:commitment", "ref", <<[M(lk[2]) EXCEPT !.l = lk[1]]>>) :
+          lk \in {x \in L \X {"random_comm", "random_shifted"} :
+                    x[2] = "random_shifted" => (BoundOf(polys[x[1]]) # NONE /\ S # "sonic")}}
+  \cup {Plan("c:bound", "ref", <<[M("relabel_bound") EXCEPT !.l = ld[1], !.d = ld[2]]>>) :
+          ld \in {x \in L \X (BoundSet(keys) \cup {NONE}) : EnforcesBounds(S) /\ ~SameBound(x[2], BoundOf(polys[x[1]]))
+                                                             /\ polys[x[1]].cls # "zero"}}
+  \cup {Plan("c:proof", "ref", <<ProofMut(g, c, 0)>>) : g \in DOMAIN prs[1], c \in Components}
+  \* (an unblinded constant or zero polynomial has commitment v G resp. 0 and witness 0: both sides of
+  \*  every pairing equation are the identity whatever the key, so key elements only matter when some
+  \*  polynomial of the statement contributes)
+  \cup {Plan("c:vk", "ref", <<[M("vk_mut") EXCEPT !.comp = c]>>) :
+          c \in {x \in VkComponents : \A g \in RangeOf(GroupsOfStmt(st)) : \E j \in DOMAIN g.labels : g.labels[j] \in ContribLabels}}
+
 PlansC11 ==
   {Plan("honest", "accept", <<>>)}
   \cup (IF ContribLabels # {} THEN {Plan("perturb", "not_accept", <<[M("sponge_perturb") EXCEPT !.op = o]>>) : o \in 1..Len(ops)} ELSE {})
@@ -393,6 +425,7 @@ AdvPlans ==
     [] Mode = "C05" -> PlansC05(st)
     [] Mode = "C06" -> PlansC06(st)
     [] Mode = "C11" -> PlansC11
+    [] Mode = "C10" -> PlansC10(st)
     [] Mode = "C12" -> {Plan("honest", "accept", <<>>), Plan("value", "not_accept", <<FalseValue(st)>>)}
     [] OTHER -> {Plan("honest", "accept", <<>>)}
 
@@ -421,6 +454,7 @@ ApplyToStmt(st, m) ==
     [] m.kind = "foreign_shifted" -> [st EXCEPT !.comms[m.l].shifted = "foreign"]
     [] m.kind = "random_comm" -> [st EXCEPT !.comms[m.l].plain = "random"]
     [] m.kind = "sponge_perturb" -> [st EXCEPT !.pre = <<AB(99, 0, 0, 0)>>]
+    [] m.kind = "vk_mut" -> [st EXCEPT !.vkmut = m.comp]
     [] m.kind = "proof_mut" /\ m.comp \in {"forge_columns", "forge_stretch"} ->
          [st EXCEPT !.deltas[FirstKey(st)] = 1]
     [] m.kind = "lc_coeff" ->
@@ -541,9 +575,24 @@ DefaultLcCheck(st) ==
   IN [missing |-> missing, lcOK |-> IF missing THEN FALSE ELSE lcOK,
       pst |-> [st EXCEPT !.qs = pqs, !.deltas = IF missing THEN [key \in EvalKeys(pqs) |-> 0] ELSE pdeltas]]
 
+\* is the replaced verifier-key element mentioned by the relation of this statement?
+VkUsed(st) ==
+  LET labs == IF st.kind = "open" THEN RangeOf(st.labels) ELSE {q[1] : q \in st.qs}
+      hiding == \E l \in labs \cap L : polys[l].hid # NONE /\ HonoursHiding(S)
+      bounded == \E l \in labs \cap L : st.comms[l].lbound # NONE
+  IN CASE st.vkmut = "" -> FALSE
+       [] st.vkmut = "gamma_g" -> hiding
+       [] st.vkmut = "s" -> hiding
+       \* the harness replaces the shift element of the LARGEST enforced bound
+       [] st.vkmut = "shift" /\ S \in {"marlin", "sonic"} ->
+            BoundSet(keys) # {} /\ \E l \in labs \cap L : st.comms[l].lbound = MaxOf(BoundSet(keys))
+                                                     /\ polys[l].cls # "zero"   \* it multiplies the value
+       [] OTHER -> TRUE
+
 CheckOp(st, ps, sp0) ==
   LET sp == sp0 \o st.pre IN
-  CASE st.kind = "open" ->
+  CASE VkUsed(st) -> [res |-> "reject", sp |-> sp, singles |-> "na"]
+    [] st.kind = "open" ->
          LET r == GroupCheck(S, keys, ContribMap, VGroup(st, GroupsOfStmt(st)[1], st.comms), ps[1], sp, "check")
          IN [res |-> r.res, sp |-> r.sp, singles |-> "na"]
     [] st.kind = "batch" ->
@@ -708,7 +757,7 @@ Behaviour ==
                commit |-> IF polys = <<>> THEN "any" ELSE ExpClass(CommitClass(S, pp.maxdeg, pp.nv, keys, polys, rng)),
                ops |-> [k \in DOMAIN ops |->
                           [open |-> ExpClass(ops[k].cls),
-                           check |-> IF Mode = "C12"    \* same decision as without the round trips: the model's
+                           check |-> IF Mode = "C10" THEN "ref" ELSE IF Mode = "C12"    \* same decision as without the round trips: the model's
                                      THEN (IF k \notin DOMAIN outs THEN "any"
                                            ELSE IF outs[k].res = "accept" THEN "accept" ELSE "not_accept")
                                      ELSE IF want = "accept" \/ adv = <<>> THEN "accept"
